@@ -32,6 +32,12 @@ def main():
         elif prop == "C18":
             from . import check_c18
             rc = check_c18.run(prop, a.tier, seed)
+        elif prop in ("C12", "C13", "C15"):
+            from . import check_paths
+            rc = check_paths.run(prop, a.tier, seed)
+        elif prop == "C14":
+            from . import check_c14
+            rc = check_c14.run(prop, a.tier, seed)
         else:
             print("no check for %s" % prop)
             rc = 2
